@@ -549,3 +549,44 @@ Lemma convert_filtered_policy_eq : forall rf1 rf2 dbg req units, wf_offsets unit
 Proof.
   intros. unfold convert_filtered. now rewrite (reserved_policy_eq rf1 rf2 dbg req units).
 Qed.
+
+Lemma slices_of_reserved : forall rf (dbg : bool) (req : N -> bool) (units : list unitd),
+  wf_offsets units -> wf_layout units ->
+  exists S ids,
+    reserved rf dbg req units = Ok S /\
+    slices dbg units S = Ok (map (fun u => filter (in_unit u) S) units) /\
+    convert_filtered rf dbg req units = convert_units ids units [] /\
+    (forall x, In x ids <-> is_root units x \/ In x S).
+Proof.
+  intros rf dbg req units Hwf Hlay.
+  destruct (filtered_ids rf dbg req units Hwf Hlay) as [S [ids [H1 [_ [_ [H2 [H3 H4]]]]]]].
+  exists S, ids. auto.
+Qed.
+
+Lemma no_dangling_covered : forall (dbg : bool) (req : N -> bool) (units : list unitd),
+  wf_offsets units -> wf_layout units ->
+  (forall u, In u units -> 0 < u_hdr u) ->
+  (forall u e par s, occurs units u e par -> In s (e_sites e) -> site_covered s = true) ->
+  (exists out0, convert_all units = Ok out0) ->
+  exists S out,
+    reserved filter_refs dbg req units = Ok S /\
+    convert_filtered filter_refs dbg req units = Ok out /\
+    (forall x, In x (map fst out) <-> In x S) /\
+    (strict_sorted (section_offsets units) -> map fst out = S).
+Proof.
+  intros dbg req units Hwf Hlay Hhdr Hcov Hall.
+  apply filtered_conversion_ok; auto.
+  intros u e par s Hocc Hs. apply covered_refs; [apply Hhdr; exact (proj1 Hocc)|eauto].
+Qed.
+
+Lemma covered_policy_eq : forall (dbg : bool) (req : N -> bool) (units : list unitd),
+  wf_offsets units ->
+  (forall u, In u units -> 0 < u_hdr u) ->
+  (forall u e par s, occurs units u e par -> In s (e_sites e) -> site_covered s = true) ->
+  convert_filtered filter_refs dbg req units = convert_filtered conv_refs dbg req units.
+Proof.
+  intros dbg req units Hwf Hhdr Hcov. apply convert_filtered_policy_eq; auto.
+  intros u e par s y Hocc Hs. split; intro Hy.
+  - eapply filter_refs_sound; eauto. apply Hhdr. exact (proj1 Hocc).
+  - eapply covered_refs; eauto. apply Hhdr. exact (proj1 Hocc).
+Qed.
